@@ -76,7 +76,7 @@ Qed.
 Lemma dir_ladder_spec : forall cfg c sc, dir_ladder cfg c sc = forbidden_dir_spec cfg c sc.
 Proof.
   intros. unfold dir_ladder, forbidden_dir_spec. rewrite find_rule_spec.
-  destruct (consulted_spec cfg sc (c_r c)) as [[[i r] rc]|];
+  destruct (consulted_spec cfg sc (c_r c)) as [[[i r] rc]|]; unfold first_some, or_else; simpl;
     destruct (has_global_dir_allowlist cfg); simpl;
     destruct (g_allow_dirs (c_g c)); simpl;
     try destruct (r_has_dir_allowlist r); simpl;
@@ -92,10 +92,10 @@ Lemma entry_violations_spec : forall cfg e,
 Proof.
   intros cfg e H. unfold entry_violations, spec_entry_violations. rewrite H.
   destruct (e_kind e).
-  - rewrite file_ladder_spec.
-    destruct (scan_excluded (e_cols e) false); simpl; [reflexivity|].
-    destruct (count_excluded (e_cols e)); reflexivity.
-  - rewrite dir_ladder_spec. reflexivity.
+  - rewrite file_ladder_spec. reflexivity.
+  - rewrite dir_ladder_spec.
+    destruct (scan_excluded (e_cols e) true); simpl; [reflexivity|].
+    destruct (is_project_root (e_path e)); reflexivity.
   - reflexivity.
 Qed.
 
@@ -109,23 +109,30 @@ Proof.
 Qed.
 
 (* ---------- at most once ---------- *)
-Lemma file_entry_at_most_one : forall cfg e, e_kind e = KFile -> (length (entry_violations cfg e) <= 1)%nat.
+Lemma entry_at_most_one : forall cfg e, (length (entry_violations cfg e) <= 1)%nat.
 Proof.
-  intros cfg e H. unfold entry_violations. rewrite H.
-  destruct (scan_excluded (e_cols e) false); simpl; [lia|].
-  destruct (count_excluded (e_cols e)); simpl; [lia|].
-  destruct (file_ladder cfg (e_name e) (e_cols e) (e_pplc e)) as [[k rr]|]; simpl; lia.
+  intros cfg e. unfold entry_violations. destruct (e_kind e).
+  - destruct (scan_excluded (e_cols e) false); simpl; [lia|].
+    destruct (file_ladder cfg (e_name e) (e_cols e) (e_pplc e)) as [[k rr]|]; simpl; lia.
+  - destruct (scan_excluded (e_cols e) true); simpl; [lia|].
+    destruct (is_project_root (e_path e)); simpl; [lia|].
+    destruct (dir_ladder cfg (e_cols e) (e_pplc e)) as [[k rr]|]; simpl; lia.
+  - simpl. lia.
 Qed.
+
+Lemma file_entry_at_most_one : forall cfg e, e_kind e = KFile -> (length (entry_violations cfg e) <= 1)%nat.
+Proof. intros cfg e _. apply entry_at_most_one. Qed.
 
 Lemma entry_violation_path : forall cfg e v, In v (entry_violations cfg e) -> v_path v = e_path e.
 Proof.
   intros cfg e v H. unfold entry_violations in H. destruct (e_kind e).
   - destruct (scan_excluded (e_cols e) false); simpl in H; [contradiction|].
-    destruct (count_excluded (e_cols e)); simpl in H; [contradiction|].
     destruct (file_ladder cfg (e_name e) (e_cols e) (e_pplc e)) as [[k rr]|]; simpl in H; [|contradiction].
     destruct H as [<-|[]]. reflexivity.
   - destruct (scan_excluded (e_cols e) true); simpl in H; [contradiction|].
-    apply in_map_iff in H. destruct H as [kr [<- _]]. reflexivity.
+    destruct (is_project_root (e_path e)); simpl in H; [contradiction|].
+    destruct (dir_ladder cfg (e_cols e) (e_pplc e)) as [[k rr]|]; simpl in H; [|contradiction].
+    destruct H as [<-|[]]. reflexivity.
   - contradiction.
 Qed.
 
@@ -158,23 +165,28 @@ Proof.
   - intro E. apply H. simpl. left. exact E.
 Qed.
 
-(* distinct paths: a file is reported at most once in a whole scan *)
-Lemma file_at_most_once : forall cfg es e,
-  NoDup (map e_path es) -> In e es -> e_kind e = KFile ->
+(* distinct paths: an entry (file or directory) is reported at most once in a whole scan *)
+Lemma entry_at_most_once : forall cfg es e,
+  NoDup (map e_path es) -> In e es ->
   (length (at_path (e_path e) (scan_violations cfg es)) <= 1)%nat.
 Proof.
-  intros cfg es e Hnd Hin Hk. unfold scan_violations.
+  intros cfg es e Hnd Hin. unfold scan_violations.
   induction es as [|x es IH]; simpl in *. contradiction.
   inversion Hnd as [|? ? Hnotin Hnd']; subst.
   rewrite at_path_app, app_length.
   destruct Hin as [->|Hin].
   - rewrite (at_path_absent cfg es (e_path e) Hnotin). simpl. rewrite Nat.add_0_r.
-    eapply Nat.le_trans. unfold at_path. apply filter_len_le. apply file_entry_at_most_one. exact Hk.
+    eapply Nat.le_trans. unfold at_path. apply filter_len_le. apply entry_at_most_one.
   - assert (Hx : e_path x <> e_path e).
     { intro E. apply Hnotin. rewrite E. apply in_map. exact Hin. }
     rewrite (at_path_other cfg x (e_path e) Hx). simpl.
     apply IH; assumption.
 Qed.
+
+Lemma file_at_most_once : forall cfg es e,
+  NoDup (map e_path es) -> In e es -> e_kind e = KFile ->
+  (length (at_path (e_path e) (scan_violations cfg es)) <= 1)%nat.
+Proof. intros cfg es e Hnd Hin _. apply entry_at_most_once; assumption. Qed.
 
 (* ---------- lists combine by OR ---------- *)
 Lemma lists_combine_by_or : forall cfg r name g rc,
@@ -385,6 +397,41 @@ Proof.
         apply Hnotin. rewrite (under_sep _ _ _ _ He1 He2). apply in_map. exact Hz.
 Qed.
 
+Lemma entry_at_most_once_tree : forall cfg rp rl t es e,
+  wf_tree t = true -> Permutation (entries rp rl t) es -> In e es ->
+  (length (at_path (e_path e) (scan_violations cfg es)) <= 1)%nat.
+Proof.
+  intros cfg rp rl t es e Hwf Hp Hin. apply entry_at_most_once; auto.
+  eapply Permutation_NoDup. apply Permutation_map. exact Hp.
+  apply entries_paths_nodup_aux. exact Hwf.
+Qed.
+
+(* a path that no walked entry carries is never reported *)
+Lemma nothing_else_reported : forall cfg es v,
+  In v (scan_violations cfg es) -> exists e, In e es /\ v_path v = e_path e.
+Proof.
+  intros cfg es v H. unfold scan_violations in H. apply in_flat_map in H.
+  destruct H as [e [He Hv]]. exists e. split. exact He. eapply entry_violation_path. exact Hv.
+Qed.
+
+(* fixes/D49: a count-excluded file is placed exactly like a counted one *)
+Lemma count_exclude_does_not_exempt : forall cfg k p d c1 c2 a b,
+  c_se_name c1 = c_se_name c2 -> c_se_path c1 = c_se_path c2 -> c_se_dir c1 = c_se_dir c2 ->
+  c_g c1 = c_g c2 -> c_r c1 = c_r c2 ->
+  map v_kind (entry_violations cfg (mk_entry k p d c1 a b)) = map v_kind (entry_violations cfg (mk_entry k p d c2 a b)).
+Proof.
+  intros cfg k p d c1 c2 a b H1 H2 H3 H4 H5. unfold entry_violations, scan_excluded, file_ladder, dir_ladder, e_name.
+  cbn [e_kind e_cols e_pplc e_path]. rewrite H1, H2, H3, H4, H5. reflexivity.
+Qed.
+
+(* fixes/D51: the project root is never reported by the directory lists *)
+Lemma project_root_not_placed : forall cfg e,
+  e_kind e = KDir -> is_project_root (e_path e) = true -> entry_violations cfg e = [].
+Proof.
+  intros cfg e Hk Hr. unfold entry_violations. rewrite Hk, Hr.
+  destruct (scan_excluded (e_cols e) true); reflexivity.
+Qed.
+
 Lemma file_at_most_once_tree : forall cfg rp rl t es e,
   wf_tree t = true -> Permutation (entries rp rl t) es -> In e es -> e_kind e = KFile ->
   (length (at_path (e_path e) (scan_violations cfg es)) <= 1)%nat.
@@ -412,4 +459,33 @@ Proof.
   intros cfg rs t es Hp. apply scan_violations_spec. intros e He.
   apply (entries_sites_agree t [] rs 0 e). unfold entries in Hp.
   eapply Permutation_in. apply Permutation_sym. exact Hp. exact He.
+Qed.
+
+(* ---------- known finding K07_file_root_sibling (D52): companions are looked up among the SCANNED files; a file
+   given as a scan root is scanned alone ---------- *)
+Lemma path_mem_In : forall p l, path_mem p l = true <-> In p l.
+Proof.
+  intros p l. unfold path_mem. rewrite existsb_exists. split.
+  - intros [x [Hx E]]. apply path_eqb_eq in E. subst. exact Hx.
+  - intro H. exists p. split. exact H. apply path_eqb_refl.
+Qed.
+
+(* the known class, executable: some file that is visible in the tree was not scanned *)
+Definition partial_scan (files vis : list path) : bool := negb (forallb (fun p => path_mem p files) vis).
+
+Lemma directed_sibling_modulo_partial_scan : forall files vis e i me ts w fm,
+  (forall p, path_mem p files = true -> path_mem p vis = true) ->
+  partial_scan files vis = false ->
+  sibling_one files e i (SDirected me ts w) fm = sibling_one vis e i (SDirected me ts w) fm.
+Proof.
+  intros files vis e i me ts w fm Hsub Hp. unfold partial_scan in Hp. apply negb_false_iff in Hp.
+  rewrite forallb_forall in Hp.
+  assert (E : forall p, path_mem p files = path_mem p vis).
+  { intro p. destruct (path_mem p vis) eqn:V.
+    - apply Hp. apply path_mem_In. exact V.
+    - destruct (path_mem p files) eqn:F; [|reflexivity]. rewrite (Hsub p F) in V. discriminate. }
+  assert (E2 : forall o, in_files files o = in_files vis o).
+  { intros [p|]; simpl; [apply E|reflexivity]. }
+  simpl. destruct fm; [|reflexivity]. apply flat_map_ext. intro t.
+  destruct (derive_sibling e t); [rewrite E2|]; reflexivity.
 Qed.
